@@ -21,7 +21,8 @@
 (*            total, tu]                                                   *)
 (*  [call |-> "transfer", sn, sr, dn, dr, q, u]                            *)
 (*  [call |-> "remove", n, r, what]                                        *)
-(*  [call |-> "dilute", n, solute, nu, du, solvent, t]                     *)
+(*  [call |-> "dilute", n, solute, nu, du, solvent, t, rename]             *)
+(*      (rename: the new_name given to the diluted container, "-" if none) *)
 (*  [call |-> "fill_to", n, r, solvent, u, T]                              *)
 (*  [call |-> "start_stage", name]  [call |-> "end_stage", name]           *)
 (*  [call |-> "bake"]                                                      *)
@@ -247,13 +248,13 @@ Bake(c) ==
   ELSE LET closed == IF rs.cur # "all"
                      THEN [rs EXCEPT !.stages = Append(@, [name |-> rs.cur, lo |-> rs.curStart, hi |-> NSteps]), !.cur = "all"]
                      ELSE rs
-       IN  IF rs.doomed > 0
+       IN  IF Declared # rs.used
+           THEN Refuse(c, "refused", "unused_object")         \* nothing happens: the recipe can be completed and baked
+           ELSE IF rs.doomed > 0
            THEN /\ rs' = [rs EXCEPT !.dead = TRUE, !.calls = Append(rs.calls, c)]
                 /\ ves' = ves
                 /\ last' = [op |-> "call", call |-> c, res |-> "ValueError", cls |-> "step_infeasible", history |-> rs.calls,
                             nsteps |-> NSteps, decl |-> rs.decl, locked |-> FALSE, clss |-> rs.clss, prog |-> rs.prog]
-           ELSE IF Declared # rs.used
-           THEN Finish(c, "refused", "unused_object", [rs EXCEPT !.dead = TRUE], ves)
            ELSE /\ rs' = [closed EXCEPT !.locked = TRUE, !.calls = Append(rs.calls, c)]
                 /\ ves' = ves
                 /\ last' = [op |-> "call", call |-> c, res |-> "ok", cls |-> "baked", history |-> rs.calls,
